@@ -286,9 +286,11 @@ namespace Pistache::Http
             if (!match_until(' ', cursor))
                 return State::Again;
 
+            // The buffer is not NUL-terminated: convert from a bounded copy
+            const std::string codeText = codeToken.text();
             char* end;
-            auto code = strtol(codeToken.rawText(), &end, 10);
-            if (*end != ' ')
+            auto code = strtol(codeText.c_str(), &end, 10);
+            if (end == codeText.c_str() || *end != '\0')
                 raise("Failed to parse return code");
             response->code_ = static_cast<Http::Code>(code);
 
@@ -454,10 +456,11 @@ namespace Pistache::Http
                     if (!cursor.advance(1))
                         return Incomplete;
 
+                // The buffer is not NUL-terminated: convert from a bounded copy
                 char* end;
-                const char* raw = chunkSize.rawText();
-                auto sz         = std::strtol(raw, &end, 16);
-                if (*end != '\r')
+                const std::string raw = chunkSize.text();
+                auto sz               = std::strtol(raw.c_str(), &end, 16);
+                if (end == raw.c_str() || *end != '\0')
                     throw std::runtime_error("Invalid chunk size");
 
                 // CRLF
